@@ -35,6 +35,9 @@ func goValue(v tval) (any, error) {
 		}
 		return nil, fmt.Errorf("bad anchor %q", v.B)
 	case "float":
+		if v.E == -2 { // negative zero
+			return math.Copysign(0, -1), nil
+		}
 		if v.E == -1 { // IEEE-754 special values of the model: n = 0 NaN, 1 +Inf, -1 -Inf
 			switch {
 			case v.N == 0:
